@@ -135,7 +135,7 @@ def applyURNs (c : Contact) (m : URNsMod) (urns : List (Option URN)) : Out :=
 /-! ### groups -/
 
 /-- `GroupsModifier.Apply` for static groups (`isQuery g`: a query-based group is refused with
-an error event) -/
+an error event); contacts that are not active (blocked, stopped, archived) are refused -/
 def groupsAddLoop (isQuery : Nat → Bool) : List Nat → List Nat → List Nat × List Nat × List Ev
   | gs, [] => (gs, [], [])
   | gs, g :: rest =>
@@ -159,13 +159,17 @@ def groupsRemoveLoop (isQuery : Nat → Bool) : List Nat → List Nat → List N
       (r.1, g :: r.2.1, r.2.2)
 
 def applyGroups (isQuery : Nat → Bool) (c : Contact) (add : Bool) (gs : List Nat) : Out :=
-  if c.status = .blocked ∨ c.status = .stopped then ⟨c, [.error], false⟩
+  if c.status ≠ .active then ⟨c, [.error], false⟩
   else if add then
-    let r := groupsAddLoop isQuery c.groups gs
-    if r.2.1 ≠ [] then ⟨{ c with groups := r.1 }, r.2.2 ++ [.groupsChanged r.2.1 []], true⟩ else ⟨c, r.2.2, false⟩
+    if (groupsAddLoop isQuery c.groups gs).2.1 ≠ [] then
+      ⟨{ c with groups := (groupsAddLoop isQuery c.groups gs).1 },
+       (groupsAddLoop isQuery c.groups gs).2.2 ++ [.groupsChanged (groupsAddLoop isQuery c.groups gs).2.1 []], true⟩
+    else ⟨c, (groupsAddLoop isQuery c.groups gs).2.2, false⟩
   else
-    let r := groupsRemoveLoop isQuery c.groups gs
-    if r.2.1 ≠ [] then ⟨{ c with groups := r.1 }, r.2.2 ++ [.groupsChanged [] r.2.1], true⟩ else ⟨c, r.2.2, false⟩
+    if (groupsRemoveLoop isQuery c.groups gs).2.1 ≠ [] then
+      ⟨{ c with groups := (groupsRemoveLoop isQuery c.groups gs).1 },
+       (groupsRemoveLoop isQuery c.groups gs).2.2 ++ [.groupsChanged [] (groupsRemoveLoop isQuery c.groups gs).2.1], true⟩
+    else ⟨c, (groupsRemoveLoop isQuery c.groups gs).2.2, false⟩
 
 /-! ### group re-evaluation -/
 
